@@ -3,8 +3,10 @@ package sched
 import (
 	"bytes"
 	"fmt"
+	"reflect"
 	"sort"
 	"strings"
+	"unsafe"
 
 	"github.com/gcash/bchd/chaincfg/chainhash"
 	"github.com/gcash/bchd/wire"
@@ -31,8 +33,11 @@ var (
 )
 
 func geom(g string) (int, uint32) {
-	if g == "2x1" {
+	switch g {
+	case "2x1":
 		return 2, 1
+	case "big": // 4096 bytes, one hash function: a thousand insertions do not saturate it
+		return 4096, 1
 	}
 	return 1, 2
 }
@@ -43,8 +48,11 @@ func geom(g string) (int, uint32) {
 // sparse: anything remembered from the first message - a bit count, bit offsets - either indexes
 // past the new array or sets the wrong bits, which the final-state comparison sees).
 func reloadBytes(g string) []byte {
-	if g == "2x1" {
+	switch g {
+	case "2x1":
 		return []byte{0x00}
+	case "big":
+		return make([]byte, 4096)
 	}
 	return []byte{0xff, 0xff}
 }
@@ -60,6 +68,34 @@ func testTx() *wire.MsgTx {
 
 var testTxMsg = testTx()
 var testTxID = testTxMsg.TxHash()
+
+// testTxBig: 1030 outputs paying the watched key (more than a thousand: an implementation that gives
+// up the lock "between batches" of a long transaction does so here)
+var testTxBigMsg = func() *wire.MsgTx {
+	tx := wire.NewMsgTx(1)
+	ext := wire.OutPoint{Hash: chainhash.Hash{0x98}, Index: 2}
+	tx.AddTxIn(wire.NewTxIn(&ext, []byte{0x51}))
+	script := append(append([]byte{byte(len(itemX))}, itemX...), 0xac)
+	for i := 0; i < 1030; i++ {
+		tx.AddTxOut(wire.NewTxOut(int64(i), script, wire.TokenData{}))
+	}
+	return tx
+}()
+var testTxBigID = testTxBigMsg.TxHash()
+
+// filterMutex finds the scheduler-visible state of the filter's mutex (field mtx, a vsync.Mutex or
+// RWMutex in the instrumented build) by reflection; nil if there is no such field.
+func filterMutex(f *bloom.Filter) *verifrt.MutexState {
+	v := reflect.ValueOf(f).Elem().FieldByName("mtx")
+	if !v.IsValid() || !v.CanAddr() {
+		return nil
+	}
+	p := reflect.NewAt(v.Type(), unsafe.Pointer(v.UnsafeAddr())).Interface()
+	if s, ok := p.(interface{ State() *verifrt.MutexState }); ok {
+		return s.State()
+	}
+	return nil
+}
 
 type histOp struct {
 	Thread    int
@@ -123,6 +159,18 @@ func (m *model) apply(op string) string {
 			rt.Outputs = append(rt.Outputs, o.PkScript)
 		}
 		for _, in := range testTxMsg.TxIn {
+			rt.Inputs = append(rt.Inputs, ref.RefTxIn{PrevHash: in.PreviousOutPoint.Hash, PrevIndex: in.PreviousOutPoint.Index, SigScript: in.SignatureScript})
+		}
+		return fmt.Sprint(cur.MatchTx(rt, true, true))
+	case "MatchTxBig":
+		if cur == nil {
+			return "false"
+		}
+		rt := &ref.RefTx{TxID: testTxBigID}
+		for _, o := range testTxBigMsg.TxOut {
+			rt.Outputs = append(rt.Outputs, o.PkScript)
+		}
+		for _, in := range testTxBigMsg.TxIn {
 			rt.Inputs = append(rt.Inputs, ref.RefTxIn{PrevHash: in.PreviousOutPoint.Hash, PrevIndex: in.PreviousOutPoint.Index, SigScript: in.SignatureScript})
 		}
 		return fmt.Sprint(cur.MatchTx(rt, true, true))
@@ -200,8 +248,12 @@ func RunBloom(cfg BloomConfig, choose func(step int, enabled []int, runningEnabl
 	for ti, prog := range cfg.Progs {
 		ti, prog := ti, prog
 		tx := bchutil.NewTx(testTxMsg) // per-thread wrapper: the hash cache of bchutil.Tx is not the filter's concern
+		txBig := bchutil.NewTx(testTxBigMsg)
 		bodies[ti] = func() {
 			for _, op := range prog {
+				if cfg.Geom == "big" {
+					verifrt.Await(filterMutex(f)) // see Await: keeps the thousands of steps of a long critical section from being branch points
+				}
 				h := histOp{Thread: ti, Op: op, Call: verifrt.Event()}
 				switch op {
 				case "Add:x":
@@ -222,6 +274,8 @@ func RunBloom(cfg BloomConfig, choose func(step int, enabled []int, runningEnabl
 					h.Result = fmt.Sprint(f.MatchesOutPoint(&o))
 				case "MatchTx":
 					h.Result = fmt.Sprint(f.MatchTxAndUpdate(tx))
+				case "MatchTxBig":
+					h.Result = fmt.Sprint(f.MatchTxAndUpdate(txBig))
 				case "Reload":
 					f.Reload(m1)
 				case "Unload":
@@ -247,7 +301,16 @@ func RunBloom(cfg BloomConfig, choose func(step int, enabled []int, runningEnabl
 			}
 		}
 	}
-	e := verifrt.Run(bodies, 5000, choose)
+	horizon := 5000
+	if cfg.Geom == "big" {
+		horizon = 2000000
+		// statements that announce no shared access are not scheduling points here either (a thread
+		// preempted after its unlock would otherwise be "enabled" at every one of the thousands of
+		// steps of the other thread's critical section, each an equivalent branch)
+		verifrt.EagerStart, verifrt.SkipLocal = true, true
+		defer func() { verifrt.EagerStart, verifrt.SkipLocal = false, false }()
+	}
+	e := verifrt.Run(bodies, horizon, choose)
 	o := &Outcome{Exec: e}
 	var hist []histOp
 	for _, h := range hists {
